@@ -13,7 +13,7 @@ use proptest::strategy::Strategy;
 use serde_json::Value;
 use std::collections::BTreeSet;
 
-pub const RULE: &str = "proptest-generated in-memory workspaces biased to colliding names (pool of 3; same name in several conftests, imported modules, plugin and third-party files; override patterns; cycles; scope chains). The observable snapshot (go-to at every usage, references per definition, available fixtures per file, scope mismatches, full normalised cycle list with anchors, unused list) after analysing the files in path order is compared with the snapshot after 3 generated permutations (thorough: all permutations for <=6 files). Scan tier: the same kind of workspace widened by up to 40 extra test modules is materialised on disk and scanned by the real parallel scan in this process and in 5 child processes with RAYON_NUM_THREADS 1/2/3/5/8; snapshots and the sets of indexed files must agree, and every test module / conftest.py of the tree must be indexed. Non-trivial = some name has >=2 definitions (scan tier: and >=9 scanned files); distinct = distinct workspace specs.";
+pub const RULE: &str = "proptest-generated in-memory workspaces biased to colliding names (pool of 3; same name in several conftests, imported modules, plugin and third-party files; override patterns; cycles; scope chains). The observable snapshot (go-to at every usage, references per definition, available fixtures per file, scope mismatches, full normalised cycle list with anchors, unused list) after analysing the files in path order is compared with the snapshot after 3 generated permutations; in a second sub-check small workspaces (<= 6 files) are compared under ALL their analysis orders (up to 720). Scan tier: the same kind of workspace widened by up to 40 extra test modules is materialised on disk and scanned by the real parallel scan in this process and in 5 child processes with RAYON_NUM_THREADS 1/2/3/5/8; snapshots and the sets of indexed files must agree, and every test module / conftest.py of the tree must be indexed. Non-trivial = some name has >=2 definitions (scan tier: and >=9 scanned files); distinct = distinct workspace specs.";
 pub const ASSUMPTIONS: &[&str] = &[
     "the parallel scan affects the index only through the order in which per-file analyses append to the per-name vectors (interleavings inside one analysis are C09's business)",
     "undeclared-fixture findings are excluded (the statement does not list them; they depend on what was indexed at analysis time by design)",
@@ -31,6 +31,30 @@ pub fn cfg() -> GenCfg {
 pub struct Case {
     pub ws: WorkspaceSpec,
     pub perm_keys: Vec<Vec<u16>>,
+    /// compare with EVERY analysis order instead of the generated ones (workspaces of <= 6 files)
+    #[serde(default)]
+    pub all_orders: bool,
+}
+
+fn permutations(n: usize) -> Vec<Vec<usize>> {
+    fn go(cur: &mut Vec<usize>, used: &mut Vec<bool>, n: usize, out: &mut Vec<Vec<usize>>) {
+        if cur.len() == n {
+            out.push(cur.clone());
+            return;
+        }
+        for i in 0..n {
+            if !used[i] {
+                used[i] = true;
+                cur.push(i);
+                go(cur, used, n, out);
+                cur.pop();
+                used[i] = false;
+            }
+        }
+    }
+    let mut out = vec![];
+    go(&mut vec![], &mut vec![false; n], n, &mut out);
+    out
 }
 
 fn last_seg(k: &str) -> String {
@@ -127,9 +151,20 @@ pub fn check_case(c: &Case, info: &mut CaseInfo) -> Outcome {
     let s_diag: BTreeSet<String> = m.all_names().into_iter().filter(|n| m.count_defs(n) >= 2).collect();
     let mut known: BTreeSet<String> = BTreeSet::new();
     let mut detail = None;
-    for keys in &c.perm_keys {
-        let mut order: Vec<usize> = (0..ws.files.len()).collect();
-        order.sort_by_key(|&i| (keys.get(i).copied().unwrap_or(0), i));
+    let orders: Vec<Vec<usize>> = if c.all_orders && ws.files.len() <= 6 {
+        info.classes.push(format!("all {} analysis orders of {} files", (1..=ws.files.len()).product::<usize>(), ws.files.len()));
+        permutations(ws.files.len())
+    } else {
+        c.perm_keys
+            .iter()
+            .map(|keys| {
+                let mut order: Vec<usize> = (0..ws.files.len()).collect();
+                order.sort_by_key(|&i| (keys.get(i).copied().unwrap_or(0), i));
+                order
+            })
+            .collect()
+    };
+    for order in orders {
         if order == canon {
             continue;
         }
@@ -328,7 +363,16 @@ pub fn run(ctx: &Ctx) {
         "perm",
         ctx.tier.pick(10_000, 400_000),
         16,
-        || (workspace(cfg()), vec(vec(0u16..1000, 24), 3)).prop_map(|(ws, perm_keys)| Case { ws, perm_keys }),
+        || (workspace(cfg()), vec(vec(0u16..1000, 24), 3)).prop_map(|(ws, perm_keys)| Case { ws, perm_keys, all_orders: false }),
+        |c, info| check_case(c, info),
+    );
+    // small workspaces (no sibling directories, depth <= 2): every analysis order
+    let small = GenCfg { max_depth: 2, siblings: false, max_items: 3, ..cfg() };
+    ctx.run_prop(
+        "perm-all",
+        ctx.tier.pick(500, 25_000),
+        16,
+        move || workspace(small.clone()).prop_map(|ws| Case { ws, perm_keys: vec![], all_orders: true }),
         |c, info| check_case(c, info),
     );
     ctx.run_prop_shrink("scan", ctx.tier.pick(120, 6_000), 8, 120, scan_case, |c, info| check_scan(c, info));
@@ -337,7 +381,7 @@ pub fn run(ctx: &Ctx) {
 pub fn judge(_ctx: &Ctx, sub: &str, case: &Value) -> Option<Outcome> {
     let mut info = CaseInfo::default();
     match sub {
-        "perm" => {
+        "perm" | "perm-all" => {
             let c: Case = from_case(case)?;
             Some(check_case(&c, &mut info))
         }
